@@ -201,8 +201,9 @@ func CrashScope(f func()) bool {
 	return false
 }
 
-// Replay runs the harness named in $KSE_REPLAY natively and reports whether
-// the recorded violation reproduces.
+// Replay runs the harness(es) named in $KSE_REPLAY natively. The file holds
+// either one replay record or a JSON array of them; one result line is printed
+// per record.
 func Replay(t *testing.T, harnesses map[string]func()) {
 	path := os.Getenv("KSE_REPLAY")
 	if path == "" {
@@ -212,34 +213,51 @@ func Replay(t *testing.T, harnesses map[string]func()) {
 	if err != nil {
 		t.Fatal(err)
 	}
-	if err := json.Unmarshal(b, &rep); err != nil {
-		t.Fatal(err)
-	}
-	h, ok := harnesses[rep.Harness]
-	if !ok {
-		t.Skipf("harness %s not in this package", rep.Harness)
+	var recs []replayFile
+	if len(b) > 0 && b[0] == '[' {
+		if err := json.Unmarshal(b, &recs); err != nil {
+			t.Fatal(err)
+		}
+	} else {
+		var one replayFile
+		if err := json.Unmarshal(b, &one); err != nil {
+			t.Fatal(err)
+		}
+		recs = []replayFile{one}
 	}
 	curT = t
-	defer func() {
+	for i, r := range recs {
+		rep = r
+		seq = map[string]int{}
+		tempDir = ""
+		h, ok := harnesses[rep.Harness]
+		if !ok {
+			fmt.Printf("KSE-REPLAY-RESULT[%d]: skipped (harness %s not in this package)\n", i, rep.Harness)
+			continue
+		}
+		outcome := "completed-without-violation"
+		func() {
+			defer func() {
+				r := recover()
+				switch r := r.(type) {
+				case nil:
+				case assumeFailed:
+					outcome = "assumption-failed"
+				case assertFailed:
+					outcome = "assert-failed " + r.label
+				default:
+					outcome = fmt.Sprintf("panic %v", r)
+				}
+			}()
+			h()
+		}()
 		if tempDir != "" {
 			os.RemoveAll(tempDir)
 		}
-	}()
-	outcome := "KSE-REPLAY-RESULT: completed-without-violation"
-	func() {
-		defer func() {
-			r := recover()
-			switch r := r.(type) {
-			case nil:
-			case assumeFailed:
-				outcome = "KSE-REPLAY-RESULT: assumption-failed"
-			case assertFailed:
-				outcome = "KSE-REPLAY-RESULT: assert-failed " + r.label
-			default:
-				outcome = fmt.Sprintf("KSE-REPLAY-RESULT: panic %v", r)
-			}
-		}()
-		h()
-	}()
-	fmt.Println(outcome)
+		if len(recs) == 1 {
+			fmt.Println("KSE-REPLAY-RESULT: " + outcome)
+		} else {
+			fmt.Printf("KSE-REPLAY-RESULT[%d]: %s\n", i, outcome)
+		}
+	}
 }
